@@ -33,3 +33,9 @@ package storage
 //@   ensures found [C07]: result1 == nil ==> result0 != nil
 //@ func MemStorage.SaveRouter
 //@   requires verified-records-only [C01,C07]: info != nil && info.Address != nil && info.Address.verified
+
+// Loading reads the state file and nothing else (in particular not the temporary file a crashed save may have left
+// behind), and always yields a storage whose maps exist.
+//@ func NewJSONFileStorage
+//@   callsite os.ReadFile reads-only-the-state-file [C18]: arg0 == filename
+//@   ensures maps-exist [C18,C20]: result1 == nil ==> result0 != nil && result0.MemStorage.routers != nil && result0.MemStorage.mappings != nil
